@@ -438,7 +438,7 @@ def _clause_known(b, spec):
     cl = b['clause']
     finite = math.isfinite(spec['object_thickness'])
     if cl == 'paraxial-trace':
-        if finite and spec['field_type'] == 'angle' and b.get('H_P', [0, 0])[0] != 0:
+        if finite and spec['field_type'] == 'angle' and 'H_P' in b:
             return 'paraxial-trace-finite-angle'
     if spec['field_type'] == 'object_height' and cl in ('chief-y', 'chief-u'):
         r = b.get('ratio_real_over_paraxial')
@@ -509,7 +509,7 @@ def replay_finding(ctx, f):
         return any(b['clause'] in ('chief-y', 'chief-u') and abs((b.get('ratio_real_over_paraxial') or 0) + 1) < 1e-3
                    for b in bad)
     if f['id'] == 'paraxial-trace-finite-angle':
-        return any(b['clause'] == 'paraxial-trace' and b.get('H_P', [0, 0])[0] != 0 for b in bad)
+        return any(b['clause'] == 'paraxial-trace' and 'H_P' in b for b in bad)
     return None
 
 
